@@ -33,3 +33,16 @@ package p2p
 //@   ensures[last] len(buf) > 0 ==> result[len(result)-1] == buf[(len(result)-1)*lim : len(buf)]
 //@   loop 1 invariant[prefix] 0 <= len(chunks) && len(chunks) * lim <= len(old(buf)) && buf == old(buf)[len(chunks)*lim:] && len(old(buf)) > 0
 //@   loop 1 invariant[chunks] forall i int :: 0 <= i && i < len(chunks) ==> chunks[i] == old(buf)[i*lim : (i+1)*lim]
+
+// all packets of one message are queued under the stream's mutex, so they sit back to back on the
+// topic's queue: queueSend may only be reached with that mutex held (checked at every call site in
+// the repository). This is a sequential lock-discipline obligation; it does not explore schedules.
+//@ func (*Stream).queueSend
+//@   requires[locked] mutexHeld(&s.mu)
+
+// reassembly: over the size limit nothing is delivered and the assembler is emptied; otherwise the
+// packet's bytes are appended; on EOF the assembler is emptied after the message was handed on
+//@ func (*Stream).handlePacket
+//@   ensures[overlimit] old(len(s.msgAssembler)) + len(packet.Bytes) > maxMessageSize ==> result1 != nil && len(s.msgAssembler) == 0
+//@   ensures[append] old(len(s.msgAssembler)) + len(packet.Bytes) <= maxMessageSize && !packet.Eof ==> result1 == nil && len(s.msgAssembler) == old(len(s.msgAssembler)) + len(packet.Bytes)
+//@   ensures[eof] old(len(s.msgAssembler)) + len(packet.Bytes) <= maxMessageSize && packet.Eof ==> result1 == nil && len(s.msgAssembler) == 0
